@@ -30,7 +30,7 @@ Choose ==
   /\ phase = "init"
   /\ \E a \in Md, b \in Md, txt \in BOOLEAN, hid \in BOOLEAN, bak \in BOOLEAN, ord \in Orders,
         sub \in {0, 1, 2}, c \in Md, stxt \in BOOLEAN, assets \in BOOLEAN, rootcopy \in BOOLEAN,
-        assets2 \in BOOLEAN, subcopy \in BOOLEAN, subassets \in BOOLEAN, missfirst \in BOOLEAN, ccopy \in BOOLEAN :
+        assets2 \in BOOLEAN, subcopy \in BOOLEAN, subassets \in BOOLEAN, missfirst \in BOOLEAN, ccopy \in BOOLEAN, dotted \in BOOLEAN :
        /\ (ord = "ba") => (a # 0 /\ b # 0)           \* ordered_subpage names existing entries only
        /\ (ord = "b_only") => b # 0
        /\ (ord = "sub_first") => sub # 0
@@ -40,14 +40,15 @@ Choose ==
        /\ (sub = 2) => (~assets2 /\ ~subcopy)         \* metadata lives in the index page
        /\ rootcopy => assets
        /\ subcopy => assets2
+       /\ dotted => (a = 1 /\ ~ccopy /\ ~subassets)      \* pages/a.b.md next to pages/a.md: two files, two pages (a.b.html, a.html)
        /\ ccopy => (sub = 1 /\ c = 1)      \* the ordinary page sub/c.md names a directory of its own in copy_subdir (the setting is per page)
        /\ t' = [a |-> a, b |-> b, txt |-> txt, hid |-> hid, bak |-> bak, ord |-> ord, sub |-> sub, c |-> c, stxt |-> stxt,
-                assets |-> assets, rootcopy |-> rootcopy, assets2 |-> assets2, subcopy |-> subcopy, subassets |-> subassets, missfirst |-> missfirst, ccopy |-> ccopy]
+                assets |-> assets, rootcopy |-> rootcopy, assets2 |-> assets2, subcopy |-> subcopy, subassets |-> subassets, missfirst |-> missfirst, ccopy |-> ccopy, dotted |-> dotted]
   /\ phase' = "chosen" /\ UNCHANGED out
 
 (* ---- Ref ---------------------------------------------------------------------- *)
-RootEntries == <<"a.md", "assets", "b.md", "notes.txt", "sub">>      \* alphabetical listing (entries that may exist)
-Exists(n) == CASE n = "a.md" -> t.a # 0 [] n = "b.md" -> t.b # 0 [] n = "notes.txt" -> t.txt
+RootEntries == <<"a.b.md", "a.md", "assets", "b.md", "notes.txt", "sub">>      \* alphabetical listing (entries that may exist)
+Exists(n) == CASE n = "a.b.md" -> t.dotted [] n = "a.md" -> t.a # 0 [] n = "b.md" -> t.b # 0 [] n = "notes.txt" -> t.txt
                [] n = "sub" -> t.sub # 0 [] n = "assets" -> t.assets [] OTHER -> FALSE
 Ordered == CASE t.ord = "ba" -> <<"b.md", "a.md">> [] t.ord = "sub_first" -> <<"sub">> [] t.ord = "b_only" -> <<"b.md">> [] OTHER -> <<>>
 InSeq(s, x) == \E i \in 1..Len(s) : s[i] = x
@@ -60,7 +61,8 @@ SubPagesOf(copySkip) ==     \* pages below `sub`, in order; copySkip = is assets
        \o (IF t.subassets THEN <<"sub/assets/index.html">> ELSE <<>>)     \* copy_subdir of the root page is local to the root directory
        \o (IF t.assets2 /\ ~copySkip THEN <<"sub/assets2/index.html">> ELSE <<>>)
        \o (IF t.c = 1 THEN <<"sub/c.html">> ELSE <<>>)
-PageOf(n, copySkip) == CASE n = "a.md" -> (IF t.a = 1 THEN <<"a.html">> ELSE <<>>)
+PageOf(n, copySkip) == CASE n = "a.b.md" -> <<"a.b.html">>
+                         [] n = "a.md" -> (IF t.a = 1 THEN <<"a.html">> ELSE <<>>)
                          [] n = "b.md" -> (IF t.b = 1 THEN <<"b.html">> ELSE <<>>)
                          [] n = "sub" -> SubPagesOf(copySkip)
                          [] OTHER -> <<>>
